@@ -4,6 +4,7 @@ package badger
 
 import (
 	"sort"
+	"sync"
 	"time"
 
 	"github.com/dgraph-io/ristretto/v2/z"
@@ -142,3 +143,22 @@ func (v *VerifOracle) State() VerifOracleState {
 
 // VerifFingerprint is the key fingerprint Txn.modify / Txn.addReadKey use.
 func VerifFingerprint(key []byte) uint64 { return z.MemHash(key) }
+
+// ---- write pipeline gates (C03)
+
+// VerifBlockWrites / VerifUnblockWrites are what DropPrefix/DropAll call around their work:
+// while writes are blocked sendToWriteCh rejects every commit with ErrBlockedWrites — after
+// newCommitTs has already handed out its commit timestamp.
+func VerifBlockWrites(db *DB) error { return db.blockWrite() }
+func VerifUnblockWrites(db *DB)     { db.unblockWrite() }
+
+// VerifHoldWrites stalls the write pipeline of an on-disk DB before anything of the next batch is
+// written: it takes vlog.filesLock, which valueLog.write acquires (RLock) before it touches the
+// value log, and writeRequests writes the value log before the memtable. Commits issued meanwhile
+// get their timestamp and sit in the pipeline; reads of inline values are not affected. The
+// returned function releases the lock (idempotent).
+func VerifHoldWrites(db *DB) (release func()) {
+	db.vlog.filesLock.Lock()
+	var once sync.Once
+	return func() { once.Do(db.vlog.filesLock.Unlock) }
+}
